@@ -1,6 +1,6 @@
 """Generators, Coq-term printers, run loop, shrinking and the common check body of C01 C06 C11 C16
 (model: coq/theories/Block, harness: harness/cmd/block)."""
-import json, os, sys, glob, copy
+import json, os, sys, glob, copy, re
 sys.path.insert(0, os.path.join(os.path.dirname(os.path.abspath(__file__)), "..", "bin"))
 import vlib
 
@@ -26,6 +26,8 @@ def PUNCH(b): return dict(k="punch", b=bool(b))
 def RESIZE(nb): return dict(k="resize", nb=nb)
 LUN = dict(k="lun")
 def CAND(cp): return dict(k="cand", cp=cp)          # cp = -1: no checkpoint
+def RF(off, ln, file): return dict(k="rf", off=off, len=ln, file=file)     # read while chain file `file` (1 = base) cannot be read
+def CLEAN(cp, fail): return dict(k="clean", cp=cp, fail=bool(fail))        # one pass of the background cleaner
 
 
 def mkcase(ops, K=8, nb=8, punch=True, rev=False):
@@ -342,6 +344,127 @@ def chain_shape_cases(rng, n):
     return out
 
 
+def enum_read_fault_cases(K=8):
+    """chains of 2 and 3 files whose blocks are owned alternately by different files; for every chain file in
+    turn (and one position outside the chain) the descriptors of that file are made unreadable for the
+    duration of one read; aligned multi-block ranges ending in every owner, and unaligned ones"""
+    cases = []
+    nb = 8
+    for files in (2, 3):
+        ops = [W(0, 6 * K, 1), SNAP(1, False)]
+        if files == 3:
+            ops += [W(K, K, 2), W(4 * K, K, 2), SNAP(2, True)]
+        ops += [W(2 * K, K, 3), W(5 * K + 2, 3, 4)]
+        # owners now: files=2: b0 b1 f1, b2 head, b3 b4 f1, b5 head, b6 b7 nobody (f1)
+        #             files=3: b0 f1, b1 f2, b2 head, b3 f1, b4 f2, b5 head
+        ranges = [(0, 2 * K), (0, 3 * K), (0, 4 * K), (K, 2 * K), (K, 4 * K), (2 * K, 2 * K), (2 * K, 4 * K), (3 * K, 3 * K),
+                  (0, 6 * K), (0, 8 * K), (4 * K, 4 * K),
+                  (3, 2 * K), (3, 3 * K + 2), (K + 1, K), (K + 5, 2 * K + 1), (2 * K - 1, 2), (2 * K - 1, K + 2),
+                  (5, 6 * K), (4 * K + 7, 2 * K - 3), (2 * K, K), (2 * K + 1, 3)]
+        for pre in (None, True):
+            o2 = list(ops)
+            if pre is not None:
+                o2.append(REOPEN(pre))      # location table filled by preload instead of by reads
+            for f in range(1, files + 2):
+                for off, ln in ranges:
+                    o2.append(RF(off, ln, f))
+            cases.append(mkcase(o2, K=K, nb=nb, punch=False))
+    return cases
+
+
+def read_fault_cases(rng, n):
+    """random: a region written, 1-4 snapshots with partial overwrites between them (so that a multi-block
+    request is served by several files), then fault-injected reads (each chain file in turn, aligned and
+    unaligned, spanning several blocks) interleaved with a few other operations"""
+    out = []
+    for i in range(n):
+        K = 4096 if i % 16 == 15 else 8
+        nb = 3 if K == 4096 else rng.choice([6, 8, 12])
+        g = Gen(rng, K=K, nb=nb, punch=rng.random() < 0.5, bias=dict(resize=0.0, reopen=0.04, revert=0.02, **{"del": 0.03}))
+        ops = [W(0, rng.randint(2, nb) * K, g.newtok())]
+        for _ in range(rng.randint(1, 4 if K == 8 else 2)):
+            name = g.next_name
+            g.next_name += 1
+            user = rng.random() < 0.4
+            g.snaps.append([name, user, False])
+            ops.append(SNAP(name, user))
+            for _ in range(rng.randint(1, 3)):
+                b0 = rng.randrange(nb)
+                if rng.random() < 0.7:
+                    ops.append(W(b0 * K, K * rng.randint(1, min(2, nb - b0)), g.newtok()))
+                else:
+                    o = rng.randrange(K)
+                    ops.append(W(b0 * K + o, rng.randint(1, K - o), g.newtok()))
+        for _ in range(rng.randint(6, 12)):
+            if rng.random() < 0.15:
+                ops.append(g.step())
+                continue
+            files = len(g.snaps) + 1
+            f = rng.randint(1, files + 1) if rng.random() < 0.9 else 0
+            b0 = rng.randrange(g.nb)
+            nblocks = rng.randint(2, max(2, min(5, g.nb - b0))) if g.nb - b0 >= 2 else 1
+            off, ln = b0 * K, nblocks * K
+            if rng.random() < 0.4:
+                a = rng.randrange(K)
+                z = rng.randrange(K)
+                off, ln = off + a, max(1, ln - a - z)
+            if off + ln > g.nb * K:
+                ln = g.nb * K - off
+            ops.append(RF(off, ln, f))
+        out.append(mkcase(ops, K=K, nb=g.nb0, punch=g.punch0, rev=False))
+    return out
+
+
+def cleaner_cases(rng, n):
+    """the background cleaner: chains of 4-8 snapshots (user-created / automatic / marked removed, every one
+    holding blocks of its own), then passes of the production loop with the checkpoint at different positions:
+    the sync agent fails the merge, or performs it; reads in between"""
+    out = []
+    for i in range(n):
+        K, nb = 8, rng.choice([8, 12])
+        ops = []
+        snaps = []
+        tok = 0
+        m = rng.randint(4, 8)
+        for j in range(1, m + 1):
+            for _ in range(rng.randint(1, 3)):
+                tok += 1
+                b0 = rng.randrange(nb)
+                l = rng.randint(1, min(3, nb - b0))
+                ops.append(W(b0 * K, l * K, tok))
+            user = rng.random() < 0.3
+            ops.append(SNAP(j, user))
+            snaps.append([j, user, False])
+        tok += 1
+        ops.append(W(rng.randrange(nb) * K, K, tok))
+        for sn in snaps[1:-1]:
+            if sn[1] and rng.random() < 0.5:
+                ops.append(PREP(sn[0]))          # a user-created snapshot the user has deleted: the cleaner may take it
+        names = [sn[0] for sn in snaps]
+        cp = rng.choice(names[2:] * 3 + names[:2] + [-1, 55])
+        passes = [True, False] if i % 2 == 0 else [True, True, False]
+        if i % 5 == 4:
+            passes = [False, True, False]
+        rng.shuffle(passes)
+        for fail in passes:
+            ops.append(CLEAN(cp, fail))
+            if rng.random() < 0.4:
+                ops.append(R(0, nb * K))
+            if rng.random() < 0.15:
+                ops.append(REOPEN(rng.random() < 0.5))
+        if rng.random() < 0.3:
+            ops.append(CAND(cp))
+        out.append(mkcase(ops, K=K, nb=nb, punch=rng.random() < 0.5, rev=False))
+    return out
+
+
+# what the two seeded regressions of wave 7 need, minimal: kept as fixed cases that run first
+RF_CASE = mkcase([W(0, 32, 1), SNAP(1, False), W(16, 8, 2), RF(0, 24, 1), RF(3, 20, 1), RF(0, 32, 1), RF(0, 16, 2)], K=8, nb=8, punch=False)
+CLEAN_CASE = mkcase([W(0, 16, 1), SNAP(1, False), W(16, 24, 2), SNAP(2, False), W(40, 8, 3), SNAP(3, False), W(48, 24, 4),
+                     SNAP(4, False), W(72, 8, 5), SNAP(5, False), W(80, 8, 6), SNAP(6, False), W(88, 8, 7),
+                     CLEAN(5, True), CLEAN(5, False)], K=8, nb=16, punch=False)
+
+
 def resize_cases(rng, n):
     out = []
     for _ in range(n):
@@ -359,8 +482,15 @@ def b(v):
     return "true" if v else "false"
 
 
-def op_term(o):
+def op_term(o, ob=None):
     k = o["k"]
+    if k == "rf":
+        return "ReadFault %s %s %s" % (nat(o["off"]), nat(o["len"]), nat(o["file"]))
+    if k == "clean":
+        # the victim is the implementation's choice among the candidates (ordered by allocated size, which
+        # the model does not have); the model acts on it only if it is one of its own candidates
+        v = (ob or {}).get("victim", 0)
+        return "Clean %s %d%%N %s" % ("None" if o["cp"] < 0 else "(Some %d%%N)" % o["cp"], v if v >= 0 else 888888, b(o["fail"]))
     if k == "w":
         return "Write %s (repeat %d%%N %s)" % (nat(o["off"]), o["tok"], nat(o["len"]))
     if k == "r":
@@ -413,7 +543,8 @@ def obs_term(ob):
 
 def case_term(c, out):
     cfg = "(mkcfg %s %s %s %s)" % (nat(c["K"]), nat(c["nb"]), b(c["punch"]), b(c["rev"]))
-    ops = "[%s]" % ";\n  ".join(op_term(o) for o in c["ops"])
+    obs_of = out["obs"] + [None] * len(c["ops"])
+    ops = "[%s]" % ";\n  ".join(op_term(o, ob) for o, ob in zip(c["ops"], obs_of))
     tbl = "[%s]" % ";\n  ".join(rle_term(r) for r in out["tbl"])
     obs = "[%s]" % ";\n  ".join(obs_term(o) for o in out["obs"])
     return "mkcase %s\n %s\n %s\n %s" % (cfg, ops, tbl, obs)
@@ -425,6 +556,41 @@ def variant():
     """BLOCK_VARIANT=fixed|current overrides Model.code_variant (used to rehearse a fix in a scratch worktree)"""
     v = os.environ.get("BLOCK_VARIANT")
     return {"fixed": "true", "current": "false"}.get(v)
+
+
+CLEANER_PERIOD = "2 * time.Millisecond"
+
+
+def build_block():
+    """Build harness/cmd/block against the repository.  The background cleaner (sync.Task.InternalSnapshotCleaner)
+    is only exported as a goroutine around a ticker with a constant period of 60 s; its loop body is not a
+    function.  The harness runs that goroutine itself, so the build replaces, through `go build -overlay` (the
+    repository is not touched), sync/sync.go by a copy in which the right-hand side of the declaration of
+    SnapshotDeletionInterval reads 2 ms -- nothing else differs, the loop body is the tree's.  The harness refuses
+    `clean` operations when the period it was compiled with is longer than 100 ms."""
+    vlib.harness_gomod()
+    bindir = os.path.join(vlib.HARNESS, "bin")
+    os.makedirs(bindir, exist_ok=True)
+    src_path = os.path.join(vlib.REPO, "sync", "sync.go")
+    args = ["go", "build", "-tags", "verif"]
+    try:
+        src = open(src_path).read()
+        new, n = re.subn(r"(?m)^(\s*(?:const\s+|var\s+)?SnapshotDeletionInterval\s*(?:time\.Duration\s*)?=\s*)[^\n]*$",
+                         lambda m: m.group(1) + CLEANER_PERIOD, src)
+    except OSError:
+        n = 0
+    if n == 1:
+        ov_src = os.path.join(bindir, "sync_overlay.go.txt")
+        ov_json = os.path.join(bindir, "overlay.json")
+        for path, text in ((ov_src, new), (ov_json, json.dumps({"Replace": {os.path.abspath(src_path): ov_src}}))):
+            tmp = "%s.%d" % (path, os.getpid())
+            with open(tmp, "w") as f:
+                f.write(text)
+            os.replace(tmp, path)
+        args += ["-overlay", ov_json]
+    out = os.path.join(bindir, "block")
+    rc, log = vlib.sh(args + ["-o", out, "./cmd/block"], cwd=vlib.HARNESS, env=vlib.GOENV, timeout=900)
+    return (out if rc == 0 else None), log
 
 
 def run_cases(ctx, binpath, cases, tag="blk", workers=16, shard=24):
@@ -474,34 +640,42 @@ def valid_io(case):
     for o in case["ops"]:
         if o["k"] == "resize" and o["nb"] >= nb:
             nb = o["nb"]
-        if o["k"] in ("w", "r") and o["off"] + o["len"] > nb * K:
+        if o["k"] in ("w", "r", "rf") and o["off"] + o["len"] > nb * K:
             return False
     return True
 
 
 def shrink(ctx, binpath, case, still_bad, tag="shr", rounds=24):
-    """greedy delta debugging on one case: drop operations, then shrink write lengths"""
+    """greedy delta debugging on one case: every single-operation deletion is tried in one batch; when several
+    of them keep the case failing, dropping all of those at once is tried first, else one is dropped"""
     cur = copy.deepcopy(case)
     n = 0
-    changed = True
-    while changed and n < rounds:
-        changed = False
+    while n < rounds:
         n += 1
-        cands = []
+        cands, pos = [], []
         for i in range(len(cur["ops"])):
             c = copy.deepcopy(cur)
             del c["ops"][i]
             if c["ops"] and valid_io(c):
                 cands.append(c)
+                pos.append(i)
         if not cands:
             break
         bad, _, _ = run_cases(ctx, binpath, cands, tag="%s%d" % (tag, n))
         idx = {x["case"]: x for x in bad}
-        for i in range(len(cands) - 1, -1, -1):
-            if i in idx and still_bad(idx[i]):
-                cur = cands[i]
-                changed = True
-                break
+        good = [i for i in range(len(cands)) if i in idx and still_bad(idx[i])]
+        if not good:
+            break
+        if len(good) > 1:
+            drop = set(pos[i] for i in good)
+            allc = copy.deepcopy(cur)
+            allc["ops"] = [o for i, o in enumerate(cur["ops"]) if i not in drop]
+            if allc["ops"] and valid_io(allc):
+                b2, _, _ = run_cases(ctx, binpath, [allc], tag="%s%da" % (tag, n))
+                if b2 and still_bad(b2[0]):
+                    cur = allc
+                    continue
+        cur = cands[good[-1]]
     return cur
 
 
@@ -565,7 +739,8 @@ def corpus(pid):
 
 COV_BITS = ["hole_sent", "hole_sent_with_user_snapshot", "unaligned_rmw_from_lower_file", "read_via_probe",
             "snapshot_deleted", "grew", "revert_ok", "reopen_or_reload", "shrink_refused", "protected_refused",
-            "candidates_nonempty"]
+            "candidates_nonempty", "faulted_read_failed_across_files", "faulted_read_succeeded_beside_broken_file",
+            "cleaner_merged_and_removed", "cleaner_kept_snapshot_after_failed_merge"]
 
 
 def cov_summary(cov):
@@ -610,23 +785,33 @@ KNOWN = {
 }
 
 NONTRIVIAL = {
-    "C01": lambda f: bool(f & (4 | 8 | 1)),
+    "C01": lambda f: bool(f & (4 | 8 | 1 | 2048 | 4096)),
     "C06": lambda f: bool(f & 2),
-    "C11": lambda f: bool(f & (16 | 512 | 1024)),
+    "C11": lambda f: bool(f & (16 | 512 | 1024 | 8192 | 16384)),
     "C16": lambda f: bool(f & (32 | 256)),
 }
 
 RULE = {
     "C01": "histories of writes/reads (alignment classes x length classes, hot blocks), snapshots, deletions, reverts, reopen/reload "
            "with and without preload, punching on/off on a real replica.Server; enumerated offset x length pairs on 1-3 file chains; "
-           "a byte-granular stream (K=4096). non-trivial (model-side) = a hole was sent, or an unaligned write read-modified a block "
-           "owned by a lower file, or the full read resolved a block through the FIEMAP probe; distinct by operation list",
+           "a byte-granular stream (K=4096); reads issued while one chain file cannot be read (the harness swaps the descriptors it "
+           "holds on that file for write-only ones for the duration of the call: every pread on it fails with EBADF, FIEMAP still "
+           "works): enumerated on 2- and 3-file chains with alternating owners (every chain file in turn and one position outside "
+           "the chain x 21 aligned / unaligned ranges ending in every owner, location table filled by reads or by preload) and random "
+           "ones after 1-4 snapshots. non-trivial (model-side) = a hole was sent, or an unaligned write read-modified a block "
+           "owned by a lower file, or the full read resolved a block through the FIEMAP probe, or a faulted read failed on a request "
+           "spanning several files, or succeeded beside the broken file; distinct by operation list",
     "C06": "structured histories (cluster written, user/auto snapshots, partial overwrites, aligned multi-block writes across the cluster, "
            "punching on) + random ones, NewReadOnly image and revert-on-copy of every snapshot after every step. non-trivial = a hole "
            "was sent while a user-created snapshot existed (SnapIndx >= 1); distinct by operation list",
     "C11": "random chain shapes (3-9 members, user/removed flags, data spread) with sync.GetDeleteCandidateChain queries, deletions "
-           "(PrepareRemoveDisk -> sparse.FoldFile -> RemoveDiffDisk) in random order, protected targets through del/prep/rm. "
-           "non-trivial = a snapshot was deleted, or a protected member was refused, or a non-empty candidate list; distinct by operation list",
+           "(PrepareRemoveDisk -> sparse.FoldFile -> RemoveDiffDisk) in random order, protected targets through del/prep/rm; passes of the "
+           "production cleaner goroutine (sync.Task.InternalSnapshotCleaner on the real replica.Server; the controller's /v1/checkpoint and "
+           "the replica's sync agent are the harness: the checkpoint is handed out once per pass, the fold is performed with sparse.FoldFile "
+           "or answered with exit code 1) on chains of 4-8 snapshots (user-created / automatic / marked removed), checkpoint at every "
+           "position, absent or unknown, merge failing and succeeding, reopen in between. "
+           "non-trivial = a snapshot was deleted, or a protected member was refused, or a non-empty candidate list, or a cleaner pass "
+           "merged and removed a snapshot, or kept it after a failed merge; distinct by operation list",
     "C16": "random histories with Server.Resize (grow / equal / shrink) interleaved with I/O, snapshots, reopen; enumerated grow-write-reopen "
            "and shrink cases. non-trivial = the volume grew or a shrink was refused; distinct by operation list",
 }
@@ -642,6 +827,8 @@ def gen_cases(ctx, pid, quick):
             cases.append(Gen.make(rng, rng.randint(8, 15), rev=False))
         for i in range(6 if quick else 60):
             cases.append(Gen.make(rng, rng.randint(6, 9), K=4096, nb=3, bias=dict(resize=0.0)))
+        cases += [RF_CASE] + enum_read_fault_cases(8)
+        cases += read_fault_cases(rng, 48 if quick else 1000)
     elif pid == "C06":
         cases += c06_cases(rng, 190 if quick else 4000)
         for i in range(40 if quick else 800):
@@ -651,6 +838,7 @@ def gen_cases(ctx, pid, quick):
         cases += chain_shape_cases(rng, 100 if quick else 2500)
         for i in range(70 if quick else 1500):
             cases.append(Gen.make(rng, rng.randint(10, 16), bias=dict(snap=0.25, **{"del": 0.2})))
+        cases += [CLEAN_CASE] + cleaner_cases(rng, 32 if quick else 600)
     elif pid == "C16":
         cases += resize_enum_cases()
         cases += resize_cases(rng, 190 if quick else 4000)
@@ -674,7 +862,7 @@ def main_for(ctx, replay=None):
     pid = ctx.pid
     key = pid.lower()
     proof = proof_layer(ctx)
-    binpath, log = vlib.harness_build("block")
+    binpath, log = build_block()
     if not binpath:
         print("ERROR: harness does not build against the repository:\n" + log[-3000:])
         sys.exit(2)
@@ -716,6 +904,12 @@ def main_for(ctx, replay=None):
         return bb, oo[0]
 
     def report_concrete(x, case):
+        # nothing after the first step at which model and implementation differ is needed
+        if x.get("field") not in (0, 10) and x["step"] + 1 < len(case["ops"]):
+            pre = dict(case, ops=case["ops"][:x["step"] + 1])
+            bb0, _, _ = run_cases(ctx, binpath, [pre], tag="pre")
+            if bb0 and not bb0[0][key]:
+                case = pre
         small = shrink(ctx, binpath, case, lambda y: not y[key])
         bb, oo = finalize(small)
         vlib.violation(ctx, dict(property=pid, kind="oracle %s_oracle fails on the implementation's trace" % key,
@@ -724,6 +918,7 @@ def main_for(ctx, replay=None):
                        suffix="" if reported == 0 else "-%d" % reported)
 
     known_done = set()
+    concrete.sort(key=lambda x: len(cases[x["case"]]["ops"]))      # the shortest failing histories are minimised
     for x in concrete:
         case = cases[x["case"]]
         kn = known_for(case, x)
@@ -803,7 +998,9 @@ def main_for(ctx, replay=None):
                                          granularity={str(k): sum(1 for c in cases if c["K"] == k) for k in sorted(set(c["K"] for c in cases))},
                                          punching_initially_on=sum(1 for c in cases if c["punch"])),
                  coverage_flags=cov_summary(cov), theorems=proof.get("theorems", []), exhaustive=False)
-    zero = [k for k, v in extra["coverage_flags"].items() if v == 0]
+    irrelevant = {"C01": ("candidates_nonempty", "cleaner_"), "C06": ("candidates_nonempty", "cleaner_", "faulted_"),
+                  "C11": ("faulted_",), "C16": ("candidates_nonempty", "cleaner_", "faulted_")}[pid]
+    zero = [k for k, v in extra["coverage_flags"].items() if v == 0 and not k.startswith(irrelevant)]
     if zero:
         ctx.notes.append("coverage predicates with zero hits in this run: " + ", ".join(zero))
     samples = []
@@ -815,5 +1012,9 @@ def main_for(ctx, replay=None):
         "the read-modify-write critical section (rmLock) and each Server call are atomic; no concurrent I/O",
         "snapshot names are fresh, reverts name a chain member, I/O stays inside [0, size) (the controller's half of C01/C16 is in the Ctl model)",
         "theorems are proved for the repaired fullWriteAt (variant fx = true); the implementation is compared with variant Model.code_variant",
+        "read faults: every pread on one chain file fails for the duration of one ReadAt (EBADF); short reads and failing FIEMAP are not modelled",
+        "cleaner passes: the production goroutine is run with its ticker period (constant SnapshotDeletionInterval, 60 s) replaced by 2 ms at "
+        "harness build time (go build -overlay of sync/sync.go, that one right-hand side only); SnapshotRetentionCount = 1; the cleaner's choice "
+        "among the candidates (ordered by allocated size) is taken from the observation and validated by the model (it must be a candidate)",
     ], samples)
     vlib.finish(ctx)
